@@ -300,7 +300,9 @@ void mmd_outline_add_itmz(DString * out, const char * source, token * current, s
 
 		level += scratch->base_header_level - 1;
 	} else {
-		level = 0;
+		// End of document: below every heading (a negative base header level
+		// puts headings at level 0 and below)
+		level = -30000;
 	}
 
 	if (s->size) {
